@@ -16,6 +16,7 @@ import SamVerif.Drive.C05
 import SamVerif.Drive.C13
 import SamVerif.Drive.C11
 import SamVerif.Drive.C08
+import SamVerif.Drive.C20
 open SamVerif.Drive
 
 def dispatch (line : String) : String :=
@@ -34,6 +35,7 @@ def dispatch (line : String) : String :=
     else if k.startsWith "c13." then C13.handle k args impl
     else if k.startsWith "c11." then C11.handle k args impl
     else if k.startsWith "c08." then C08.handle k args impl
+    else if k.startsWith "c20." then C20.handle k args impl
     else "bad-op"
   | _ => "bad-op"
 
